@@ -33,6 +33,7 @@ import (
 	"time"
 
 	"github.com/sanonone/kektordb/internal/verifkit"
+	"github.com/sanonone/kektordb/pkg/core"
 	"github.com/sanonone/kektordb/pkg/core/distance"
 	"github.com/sanonone/kektordb/pkg/core/hnsw"
 	"github.com/sanonone/kektordb/pkg/core/types"
@@ -273,10 +274,18 @@ func c13RunRound(c c13Round) (msg string) {
 	}
 	kvWritten := make([]sync.Map, 4) // per shared key: value -> true (recorded BEFORE the write is issued)
 	owned := make([]map[string]*c13Owned, c.Clients)
+	// for rounds that Close while clients run: per owned id the last state acknowledged before Close was
+	// invoked ("definite") and the states of every write attempted from then on ("maybe": such a write may or
+	// may not have made it, whatever it returned)
+	definite := make([]map[string]*c13Owned, c.Clients)
+	maybe := make([]map[string][]*c13Owned, c.Clients)
+	var closeStarted atomic.Bool
 	var afterClose atomic.Bool // set once Close has RETURNED
 	var cl sync.WaitGroup
 	for ci := 0; ci < c.Clients; ci++ {
 		owned[ci] = map[string]*c13Owned{}
+		definite[ci] = map[string]*c13Owned{}
+		maybe[ci] = map[string][]*c13Owned{}
 		cl.Add(1)
 		go func(ci int) {
 			defer cl.Done()
@@ -295,15 +304,18 @@ func c13RunRound(c c13Round) (msg string) {
 					kind = 6 + rng.Intn(3) // contend on the shared node: disjoint-key merge or reinforce
 				}
 				mutating := true
+				attempt := map[string]*c13Owned{} // presence/vector this op gives its ids if it takes effect
 				switch kind {
 				case 0, 1, 2:
 					vec := []float32{float32(rng.Intn(9)), float32(rng.Intn(9))}
 					meta := map[string]any{"owner": float64(ci), "n": float64(n), "content": "quick cats running"}
+					attempt[id] = &c13Owned{present: true, vec: vec}
 					opErr, returned = c13Call("VAdd", func() error { return e.VAdd("main", id, vec, meta) }, &hung)
 					if returned && opErr == nil {
 						mine[id] = &c13Owned{present: true, vec: vec, meta: normMeta(meta)}
 					}
 				case 3:
+					attempt[id] = &c13Owned{present: false}
 					opErr, returned = c13Call("VDelete", func() error { return e.VDelete("main", id) }, &hung)
 					if returned && opErr == nil {
 						mine[id] = &c13Owned{present: false}
@@ -366,6 +378,8 @@ func c13RunRound(c c13Round) (msg string) {
 				case 14:
 					items := []types.BatchObject{{Id: fmt.Sprintf("c%d_b%d", ci, n), Vector: []float32{1, float32(n % 7)}, Metadata: map[string]any{"owner": float64(ci)}},
 						{Id: fmt.Sprintf("c%d_b%d_2", ci, n), Vector: []float32{2, float32(n % 5)}}}
+					attempt[items[0].Id] = &c13Owned{present: true, vec: items[0].Vector}
+					attempt[items[1].Id] = &c13Owned{present: true, vec: items[1].Vector}
 					opErr, returned = c13Call("VAddBatch", func() error { return e.VAddBatch("main", items) }, &hung)
 					if returned && opErr == nil {
 						mine[items[0].Id] = &c13Owned{present: true, vec: items[0].Vector, meta: normMeta(items[0].Metadata)}
@@ -382,6 +396,20 @@ func c13RunRound(c c13Round) (msg string) {
 				if !returned {
 					return
 				}
+				if len(attempt) > 0 {
+					if !closeStarted.Load() {
+						if opErr == nil {
+							for aid, st := range attempt {
+								definite[ci][aid] = st
+								delete(maybe[ci], aid)
+							}
+						}
+					} else {
+						for aid, st := range attempt {
+							maybe[ci][aid] = append(maybe[ci][aid], st)
+						}
+					}
+				}
 				if opErr != nil && strings.HasPrefix(opErr.Error(), "PANIC") {
 					fail("%v", opErr)
 					return
@@ -395,13 +423,23 @@ func c13RunRound(c c13Round) (msg string) {
 	}
 	if c.CloseEarly {
 		time.Sleep(time.Duration(2+c.Seed%8) * time.Millisecond)
-		close(stop)
-		bg.Wait()
+		// in half of these rounds the background actors (snapshot, compaction, maintenance, index create/drop)
+		// are still running when Close is invoked
+		overlap := c.Seed%2 == 0
+		if !overlap {
+			close(stop)
+			bg.Wait()
+		}
+		closeStarted.Store(true)
 		err, ok := c13Call("Close", func() error { return e.Close() }, &hung)
 		closed.Store(true)
 		if ok {
 			afterClose.Store(true)
 			_ = err
+		}
+		if overlap {
+			close(stop)
+			bg.Wait()
 		}
 		cl.Wait()
 	} else {
@@ -417,7 +455,50 @@ func c13RunRound(c c13Round) (msg string) {
 		return f.(string)
 	}
 	if c.CloseEarly {
-		return "" // per-item outcomes are not compared when Close cut the clients short
+		// Close persists every write acknowledged before it was invoked: after a reopen each owned id is in the
+		// state of its last write acknowledged before Close started, or in the state of a write attempted later
+		e2, err := engine.Open(engineOpts(data))
+		if err != nil {
+			return "Open after Close-while-running: " + err.Error()
+		}
+		defer e2.Close()
+		same := func(st *c13Owned, vd core.VectorData, gerr error) bool {
+			if !st.present {
+				return gerr != nil
+			}
+			return gerr == nil && len(vd.Vector) == len(st.vec) && vd.Vector[0] == st.vec[0] && vd.Vector[1] == st.vec[1]
+		}
+		for ci := 0; ci < c.Clients; ci++ {
+			ids := map[string]bool{}
+			for id := range definite[ci] {
+				ids[id] = true
+			}
+			for id := range maybe[ci] {
+				ids[id] = true
+			}
+			for id := range ids {
+				vd, gerr := e2.VGet("main", id)
+				ok := false
+				if st := definite[ci][id]; st != nil {
+					ok = same(st, vd, gerr)
+				} else {
+					ok = gerr != nil // never definitely written: absent is fine
+				}
+				for _, st := range maybe[ci][id] {
+					if same(st, vd, gerr) {
+						ok = true
+					}
+				}
+				if !ok {
+					d := "never written before Close was invoked"
+					if st := definite[ci][id]; st != nil {
+						d = fmt.Sprintf("present=%v vector=%v", st.present, st.vec)
+					}
+					return fmt.Sprintf("after Close (invoked while clients were running) and Open: %s reads as (vector %v, err %v); its last write acknowledged before Close was invoked left it as (%s); %d later attempts could explain other states, none explains this one", id, vd.Vector, gerr, d, len(maybe[ci][id]))
+				}
+			}
+		}
+		return ""
 	}
 	// ---- per-item outcomes (live)
 	verify := func(e *engine.Engine, when string) string {
